@@ -707,6 +707,9 @@ func witnessCases() map[string]Case {
 		// struct{M map[string]string}{62-byte key: 62-byte value}: Size = 130, encoding = 131 bytes, Marshal fails
 		pgen.ClassMapEntryLen: {Type: st(fld(pgen.TypeDesc{K: pgen.KMap, Key: &pgen.TypeDesc{K: pgen.KString}, Elem: &pgen.TypeDesc{K: pgen.KString}})),
 			Value: rs(pgen.Recipe{K: []pgen.Recipe{{B: bytes.Repeat([]byte("k"), 62)}}, E: []pgen.Recipe{{B: bytes.Repeat([]byte("v"), 62)}}})},
+		// struct{P *PTree}{&PTree{V: 1, Kids: []*PTree{{V: 2}}}}: the pointer codec of the recursive type is requested before its struct
+		// codec, Kids captured wire type 0 and Unmarshal rejected Marshal's output
+		"recursive-type-first-reached-through-pointer": {Type: st(fld(pt(nm("PTree")))), Value: rs(rs(rs(ru(1), rs(rs(rs(ru(2), pgen.Recipe{Nil: true}))))))},
 		pgen.ClassModCollide: {Type: st(pgen.FieldDesc{Num: 1, Wire: "varint", T: lf(pgen.KInt)}, pgen.FieldDesc{Num: 65537, Wire: "varint", T: lf(pgen.KInt)}), Value: rs(ru(3), ru(4))},
 	}
 }
